@@ -47,6 +47,14 @@ func (k Keeper) ApplyAndReturnValidatorSetUpdates(ctx context.Context) ([]abci.V
 
 		// zero power validator removed from validator set
 		if newPower <= 0 {
+			// a validator that was never bonded has no last validator power,
+			// so it is not cleaned up below; remove its record here.
+			if !found {
+				if err := k.RemoveValidator(ctx, valAddr); err != nil {
+					return nil, err
+				}
+			}
+
 			continue
 		}
 
